@@ -7,7 +7,7 @@ ev=$(mktemp -d /tmp/vt_sweep_XXXXXX)
 bad=0
 for seed in "$@"; do
   for i in 01 02 03 04 05 06 07 08 09 10 11 12 13 14 15 16 17 18 19 20; do
-    out=$(VERIF_SEED=$seed VERIF_EVIDENCE_DIR=$ev VERIF_REPLAY_DIR=$ev/replay PYTHONHASHSEED=${PYTHONHASHSEED:-0} ./check C$i $tier 2>&1)
+    out=$(VERIF_SEED=$seed VERIF_EVIDENCE_DIR=$ev VERIF_REPLAY_DIR=$ev/replay ./check C$i $tier 2>&1)
     rc=$?
     if [ $rc -ne 0 ]; then bad=$((bad+1)); echo "seed=$seed C$i rc=$rc: $(echo "$out" | grep -m3 '^VIOLATION\|^INCONCLUSIVE' | cut -c1-400)"; fi
   done
